@@ -281,7 +281,10 @@ JudgeRead(fmt, chain, s, e) ==
     [] s.mode = "stream" /\ r.k = "rec" ->
          LET ok == el.okRec /\ Eq(r, el.rec, j)
              posbad == ok /\ e.op = "next" /\ e.pos # <<>> /\ el.coords /\ e.pos # <<el.line, el.byte>>
-         IN [viol |-> (IF ok THEN {} ELSE Bl(fmt, s, "record_content") \cup fab \cup fault)
+             \* an owned record (records(), into_records()) that is a genuine record with the right header but whose sequence
+             \* is not the concatenation of the lines: the owned copy disagrees with the other views (C13)
+             ownedbad == j /\ ~ok /\ el.okRec /\ r.head = el.rec.head
+         IN [viol |-> (IF ok THEN {} ELSE Bl(fmt, s, "record_content") \cup fab \cup fault \cup (IF ownedbad THEN {<<"C13", "owned_copy_differs_from_the_record">>} ELSE {}))
                       \cup (IF posbad THEN {<<"C05", "position_of_returned_record">>} ELSE {})
                       \cup ViewsViol(fmt, r) \cup SerdeViol(r) \cup CrViol(e, r)
                       \cup (IF ok THEN WriteViol(fmt, el, r) ELSE {})
